@@ -34,4 +34,14 @@ TEXT.update({
   note="Trusted: maphash as an arbitrary function of the bytes written; the verif hook VerifHashValue for the implementation-side hash law check.",
  ),
 })
+TEXT.update({
+ "C03": dict(
+  level="PARTIAL. Proved: the fragment half of designation (a JSON Pointer fragment resolves to exactly the location it spells and to nothing else, for every keyword/index/key). Modelled and tied by correspondence, not yet proved against a lexical specification: base-URI computation, resource and anchor scoping, the loader cache (loader-once), termination on reference cycles, never-a-panic. The resolver state machine is an executable Coq function (res/Resolve.v) compared with the package on generated universes: outcome class, reached target through unique markers, loader call sequence.",
+  note="Trusted: net/url as transcribed in uri/Uri.v (validated against net/url on 3,000+ pairs per run); the generator's coverage of reference forms and topologies bounds what the correspondence can show.",
+ ),
+ "C17": dict(
+  level="Theorems: for every schema tree whose nodes pass basicChecks (Resolve checks this) and every location enumerated by the children table (regenerated from /repo's Schema struct), the rendered RFC 6901 pointer dereferences to exactly that subschema (C17_addressable); escaping, rendering/parsing and decimal indexes round-trip for all strings and numbers; whatever a pointer resolves to is the subschema at the recorded location (C17_only).",
+  note="Trusted: percent-decoding of the fragment by net/url (modelled, compared); strconv.Atoi vs the model's digit parser (compared on signed/padded/overflowing inputs by the ptr family). The theorem is about dereferenceJSONPointer on the resource root; that the resolver applies it to the right root is part of C03.",
+ ),
+})
 PENDING = {}
